@@ -489,6 +489,10 @@ Definition loc_beq (a b : parent * nat * nat) : bool :=
   let '(p, i, j) := a in let '(q, i', j') := b in
   (match p, q with PA, PA | PB, PB | PC, PC => true | _, _ => false end) && (i =? i') && (j =? j').
 
+(** the split variables a routine of kind [k] has *)
+Definition dim_ok (k : kind) (v : var) : bool :=
+  match v with Vmmm => true | Vkkk | Vnnn => negb (k_sqr k) | _ => false end.
+
 Definition split_var (a : aexp) : option var :=
   match a with AVar Vmmm => Some Vmmm | AVar Vkkk => Some Vkkk | AVar Vnnn => Some Vnnn | _ => None end.
 
@@ -581,7 +585,8 @@ Definition sval_beq (a b : sval) : bool :=
 Definition init_sstate (k : kind) (tmps : list (string * (aexp * aexp))) : option sstate :=
   let cq q := mksv Vmmm (if k_sqr k then Vmmm else Vnnn) 0 0 (2 ^ N.of_nat q) in
   let tm := map (fun p => match split_var (fst (snd p)), split_var (snd (snd p)) with
-                          | Some r, Some c => Some (fst p, mksv r c 0 0 0)
+                          | Some r, Some c =>
+                            if dim_ok k r && dim_ok k c then Some (fst p, mksv r c 0 0 0) else None
                           | _, _ => None end) tmps in
   if forallb (fun o => match o with Some _ => true | None => false end) tm
   then Some (mkss (map cq (seq 0 4))
